@@ -2,6 +2,7 @@ package props
 
 import (
 	"fmt"
+	"math/big"
 	"strconv"
 	"strings"
 	"testing"
@@ -707,6 +708,27 @@ func TestC20(t *testing.T) {
 						}
 					}
 				}
+			}
+		}
+		// numeric wrap-around: labels whose components equal 3, 0 or 1 modulo a power of two
+		// (a hand-written number parser without overflow check), with leading zeros, signs
+		// and exponents (a tolerant one)
+		if shard == 0 {
+			pow := map[string]string{"2^8": "256", "2^16": "65536", "2^31": "2147483648", "2^32": "4294967296", "2^63": "9223372036854775808", "2^64": "18446744073709551616", "2^128": "340282366920938463463374607431768211456"}
+			addTo := func(dec string, k int) string { // decimal string + small k
+				b, _ := new(big.Int).SetString(dec, 10)
+				return b.Add(b, big.NewInt(int64(k))).String()
+			}
+			for _, p := range pow {
+				for _, minor := range []int{0, 1} {
+					try([]byte("3." + addTo(p, minor)))
+					try([]byte(addTo(p, 3) + "." + strconv.Itoa(minor)))
+					try([]byte(addTo(p, 3) + "." + addTo(p, minor)))
+					try([]byte(addTo(p, 30+minor)))
+				}
+			}
+			for _, l := range []string{"03.1", "3.01", "3.10", "3.1.0", "+3.1", "3.+1", "-3.1", "3.1e0", "3e0.1", "0x3.1", "3.1 ", " 3.1", "3 .1", "3. 1", "３.１", "3.١", "3,1", "3_1", "3.1_", "3.1\x00", "3..1", ".3.1", "3.1.", "31", "3", ".1", "3."} {
+				try([]byte(l))
 			}
 		}
 		c.rec.Bulk("version-labels", evals, evals, map[string]int64{"version-label<=3-bytes": evals})
